@@ -74,6 +74,10 @@ _add("SmVerif.Tie.Flatten", "RsFlatten", [_T + n for n in
     "tie_flatten_token tie_flatten_token_rel tie_flatten_toks_along tie_flatten_tokens tie_flatten_tokens_error gen_c08_flatten_col_only_first_line gen_c08_flatten_line_overflow gen_c08_flatten_col_overflow gen_c08_flatten_token_pos".split()])
 _add("SmVerif.Tie.Rewrite", "RsRewrite", [_T + n for n in
     "tie_rewrite_token tie_rewrite_token_rel tie_rewrite_toks_along tie_rewrite_tokens tie_rewrite_tokens_error gen_c09_no_names gen_c09_no_names_token gen_c09_contents_only_if_asked gen_c09_contents_first_time".split()])
+_add("SmVerif.Tie.Rewrite2", "RsRewrite", [_T + n for n in
+    "tie_gen_rewrite_with_mapping_along tie_gen_rewrite_along tie_gen_rewrite_with_mapping tie_gen_rewrite tie_gen_rewrite_noprefix tie_gen_rewrite_opts gen_rewrite_model gen_c09_whole_safe gen_c09_whole_sorted gen_c09_whole_tokens gen_c09_whole_token_count gen_c09_whole_token_at gen_c09_whole_sources gen_c09_whole_names gen_c09_whole_no_unreferenced gen_c09_whole_no_dup gen_c09_whole_contents gen_c09_whole_contents_dropped gen_c09_whole_file_debugid gen_c09_whole_root_ignore_dropped gen_c09_whole_mapping".split()])
+_add("SmVerif.Tie.Flatten2", "RsFlatten", [_T + n for n in
+    "secsSmallAlong_of_final secsSmallAlong_of_count tie_flatten_tokens_eq tie_gen_secs tie_gen_flatten_eq gen_flatten_model tie_gen_flatten tie_gen_flatten_error tie_gen_flatten_whole gen_c08_whole_tokens gen_c08_whole_tokens_wf gen_c08_whole_contents gen_c08_whole_ignore gen_c08_whole_sources gen_c08_whole_file gen_c08_whole_ok_iff gen_c08_whole_safe gen_c08_whole_agree".split()])
 _add("SmVerif.Tie.HermesDecode", "RsHermesDecode", [_T + "HermesDecode." + n for n in
     "loop2_cons_err loop2_cons_ok tie_loop2 loop2_error_panic loop2_total tie_loop1 loop1_error_panic loop1_total tie_decode_function_map decode_function_map_nums_irrel decode_function_map_eq bytes_needed tie_decode_sources decodeAll_eq gen_c14_decode_eq_metro gen_c14_decode_all_eq_metro gen_c14_decode_unreadable gen_c14_decode_unparsable gen_c14_decode_bad_map_local gen_c14_decode_panic_iff gen_c14_decode_no_overflow gen_c14_decode_safe gen_c14_decode_all_safe".split()])
 _add("SmVerif.Tie.GetLine", "RsGetLine", [_T + "GetLine." + n for n in
@@ -125,8 +129,8 @@ PROP_MODULES = {
     "C10": ["SmVerif.Tie.Adjust"],
     "C11": ["SmVerif.Tie.Vlq", "SmVerif.Tie.Props"],
     "C12": ["SmVerif.Tie.Header", "SmVerif.Tie.Props2", "SmVerif.Tie.Reader"],
-    "C08": ["SmVerif.Tie.Builder", "SmVerif.Tie.Builder2", "SmVerif.Tie.Flatten", "SmVerif.Tie.Index"],
-    "C09": ["SmVerif.Tie.Builder", "SmVerif.Tie.Builder2", "SmVerif.Tie.Rewrite"],
+    "C08": ["SmVerif.Tie.Builder", "SmVerif.Tie.Builder2", "SmVerif.Tie.Flatten", "SmVerif.Tie.Flatten2", "SmVerif.Tie.Index"],
+    "C09": ["SmVerif.Tie.Builder", "SmVerif.Tie.Builder2", "SmVerif.Tie.Rewrite", "SmVerif.Tie.Rewrite2"],
     "C13": ["SmVerif.Tie.Prefix", "SmVerif.Tie.Builder", "SmVerif.Tie.Builder2"],
     "C15": ["SmVerif.Tie.SourceView", "SmVerif.Tie.GetLine"],
     "C16": ["SmVerif.Tie.GetLine"],
